@@ -476,15 +476,15 @@ func mainC03(seed uint64, n int, out string, rp *replayInput) {
 			}
 			return
 		}
-		if key, mech := classify(c, r.sig.failF1, r.sig.failDepth); key != "" {
+		if key, mech := classify(c, r.sig.failF1, r.sig.failPrefix, r.sig.failDepth); key != "" {
 			recordFinding(sum, key, mech+r.viol.what, c, r.sig, func() (Case, string) {
 				sc := shrink03(c, r.cut, func(cand Case, rc *res03) bool {
-					k, _ := classify(cand, rc.sig.failF1, rc.sig.failDepth)
+					k, _ := classify(cand, rc.sig.failF1, rc.sig.failPrefix, rc.sig.failDepth)
 					return k == key
 				})
 				what := mech + r.viol.what
 				if r2 := runC03(sc); r2.viol != nil {
-					_, m2 := classify(sc, r2.sig.failF1, r2.sig.failDepth)
+					_, m2 := classify(sc, r2.sig.failF1, r2.sig.failPrefix, r2.sig.failDepth)
 					what = m2 + r2.viol.what
 				}
 				return sc, what
@@ -496,7 +496,7 @@ func mainC03(seed uint64, n int, out string, rp *replayInput) {
 		if firstOfItsKind(r.viol.kind, c) {
 			kind := r.viol.kind
 			sc = shrink03(c, r.cut, func(cand Case, rc *res03) bool {
-				k, _ := classify(cand, rc.sig.failF1, rc.sig.failDepth)
+				k, _ := classify(cand, rc.sig.failF1, rc.sig.failPrefix, rc.sig.failDepth)
 				return rc.viol.kind == kind && k == ""
 			})
 			if r2 := runC03(sc); r2.viol != nil {
@@ -505,7 +505,7 @@ func mainC03(seed uint64, n int, out string, rp *replayInput) {
 		}
 		sum.Violations = append(sum.Violations, map[string]any{"what": what, "case": sc, "evicting_config": evicting(c),
 			"node_cap_vs_max_path_depth":       fmt.Sprintf("%d vs %d", c.NodeCap, r.sig.failDepth),
-			"sig_dirty_node_with_evicted_leaf": r.sig.failF1, "sig_dirty_pointer_without_node": r.sig.failF2})
+			"sig_dirty_node_with_evicted_leaf": r.sig.failF1, "sig_dirty_pointer_without_node": r.sig.failF2, "had_prefix_pair": r.sig.failPrefix})
 	}
 	if rp != nil {
 		if rp.single != nil {
